@@ -183,7 +183,24 @@ static int fragments_needed_one_data_local(xor_code_t *code_desc,
 {
   int *missing_data = get_missing_data(code_desc, fragments_to_exclude);
   int *missing_parity = get_missing_parity(code_desc, fragments_to_exclude);
-  int parity_index = index_of_connected_parity(code_desc, fragment_to_reconstruct, missing_parity, missing_data);
+  int parity_index;
+  int already_listed = 0;
+  int i = 0;
+
+  // The fragment to reconstruct is unavailable too: a parity that covers it
+  // and an excluded data element cannot be used
+  while (missing_data[i] > -1) {
+    if (missing_data[i] == fragment_to_reconstruct) {
+      already_listed = 1;
+    }
+    i++;
+  }
+  if (!already_listed) {
+    missing_data[i] = fragment_to_reconstruct;
+    missing_data[i + 1] = -1;
+  }
+
+  parity_index = index_of_connected_parity(code_desc, fragment_to_reconstruct, missing_parity, missing_data);
   free(missing_data);
   free(missing_parity);
 
